@@ -27,3 +27,7 @@ Definition src_transform_journal : fdef :=
 
 Definition refs : list (nat * string) :=
   [].
+
+(* dataclasses.fields of the beanquery.parser.ast classes constructed by the translated code *)
+Definition ast_decls : list (string * list string) :=
+  [("beanquery.parser.ast.Select", ["targets"; "from_clause"; "where_clause"; "group_by"; "order_by"; "pivot_by"; "limit"; "distinct"]); ("beanquery.parser.ast.Match", ["left"; "right"]); ("beanquery.parser.ast.Column", ["name"]); ("beanquery.parser.ast.Constant", ["value"])].
